@@ -316,8 +316,83 @@ def machine(seed, n, record):
     run_state_machine_as_test(hy.seed(seed)(M), settings=hy.settings(hyp_settings(n), stateful_step_count=12))
 
 
+# ------------------------------------------------------------------ unobserved additions, shared rule lists
+def gen_blind(r):
+    d = G.hostile_doc(r, 3)
+    S = G.schema_for(r, d, min_rules=0, max_rules=3, mode="typed", cast_p=20, cond_depth=1, max_len=3)
+    root = G.guided_path(r, d, max_len=2, miss=10, mode="typed", prim_only=r.coin(70))
+    sel = model.ref_select(root.parts, d) if root.parts else [(d, ())]
+    conts = [v for v, _ in sel if isinstance(v, (dict, list)) and v]
+    sub = r.choice(conts) if conts else d
+    T = G.schema_for(r, sub, min_rules=1, max_rules=2, mode="typed", cast_p=35, cond_depth=1, max_len=2)
+    U = G.schema_for(r, sub, min_rules=1, max_rules=2, mode="typed", cast_p=20, cond_depth=1, max_len=2)
+    root2 = G.guided_path(r, sub, max_len=1, miss=20, mode="typed", prim_only=True)
+    return S, T, U, root, root2, d, r.coin(60), r.coin(50)
+
+
+def rerooted(root, t):
+    return RuleT(PathT(list(root.parts) + list(t.path.parts)), t.cond, t.cast, t.doc)
+
+
+def body_blind(case):
+    """S.add_schema(T, R) and then - with NOTHING read from S in between - T itself receives U (T.add_schema(U, R2)).
+    S holds what T was when it was added.  A second schema built from the very same list of rule objects as S is a
+    bystander: it keeps judging as S did before the addition."""
+    S, T, U, root, root2, doc, grow, twin = case
+    out = Outcome()
+    ns = build.ns()
+    out.nontrivial = grow or twin
+    out.label("T-grows-afterwards" if grow else "T-left-alone", "bystander-from-same-list" if twin else "no-bystander")
+    out.sample = f"S={show(S,150)} T={show(T,150)} at {show(root,80)}; then U={show(U,120)} into T at {show(root2,60)}"
+    try:
+        order = model.rule_order(S.rules)
+        rule_objs = [build.build_rule(S.rules[i]) for i in order]  # shortest path first already
+        s = ns.s.Schema(rule_objs)
+        s2 = ns.s.Schema(rule_objs) if twin else None
+        t = build.build_schema(T)
+        u = build.build_schema(U)
+        R, R2 = build.build_path(root), build.build_path(root2)
+    except Exception as e:
+        out.label("build-refused")
+        out.nontrivial = False
+        return out
+    try:
+        s.add_schema(t, R)
+        if grow:
+            t.add_schema(u, R2)
+    except Exception as e:
+        out.exc("add_schema-raised", e)
+        return out
+    t_sorted = [T.rules[i] for i in model.rule_order(T.rules)]
+    u_sorted = [U.rules[i] for i in model.rule_order(U.rules)]
+    exp_s = SchemaT(sorted([S.rules[i] for i in order] + [rerooted(root, x) for x in t_sorted], key=lambda x: len(x.path.parts)))
+    exp_t = SchemaT(sorted(t_sorted + ([rerooted(root2, x) for x in u_sorted] if grow else []), key=lambda x: len(x.path.parts)))
+    checks = [("S", s, exp_s), ("T", t, exp_t)]
+    if twin:
+        checks.append(("bystander", s2, SchemaT([S.rules[i] for i in order])))
+    out.evals = 0
+    for name, obj, exp in checks:
+        out.evals += 1
+        ref = model.ref_schema_validate(exp, doc)
+        try:
+            n = len(obj.rules)
+            vd = obj.validate(copy.deepcopy(doc))
+        except Exception as e:
+            out.exc(f"validate-raised|{name}", e)
+            return out
+        if n != len(exp.rules):
+            out.add("rules-added", f"rules-added|count|{name}", f"{name} has {n} rules, expected {len(exp.rules)}")
+            return out
+        if vd.is_valid is not ref["valid"] or vd.num_failures != ref["nfail"] or exact(vd.cast_data) != exact(ref["cast"]):
+            out.add("judges-as-before-plus-T", f"judges-as-before-plus-T|unobserved|{name}",
+                    f"{name}: valid={vd.is_valid} nfail={vd.num_failures} expected {ref['valid']} {ref['nfail']}; cast {show(vd.cast_data,120)} expected {show(ref['cast'],120)}")
+            return out
+    return out
+
+
 def tests(tier):
     return [
+        TestSpec("unobserved-and-shared", gen_blind, body_blind, {"quick": 1500, "thorough": 120000}, tape=3072),
         TestSpec("add-schema-history", gen_case, body, {"quick": 500, "thorough": 50000}, tape=4096, fuzz={"thorough": 5000}),
         TestSpec("add-schema-machine", gen_case, body, {"quick": 100, "thorough": 8000}, tape=4096, machine=machine),
     ]
